@@ -106,6 +106,8 @@ Definition norm_slot (g : nat) (s : schema) (f : fdesc) (v : val) : val :=
                               end) l)
   | CNone, TMsg j, VMsg (Some (fs1, u)) => VMsg (Some (norm_fields g s j fs1, u))
   | CNone, TMsg j, VEmb fs1 u => VEmb (norm_fields g s j fs1) u
+  | CNone, TMsg j, VOpt (Some x) =>
+      match x with VEmb fs1 u => VOpt (Some (VEmb (norm_fields g s j fs1) u)) | _ => v end
   | CNone, TMsg j, VList l =>
       VList (map (fun e => match e with
                            | VMsg None => VMsg (Some (match nth_error s j with Some mj => zero_fields s mj | None => [] end, []))
@@ -472,7 +474,14 @@ Definition msg_elem_ok (s : schema) (sub : nat -> list val -> bytes -> bool) (en
   match x with
   | VMsg None => i_pointer (field_info s f)
   | VMsg (Some (fs1, u1)) => i_pointer (field_info s f) && sub j fs1 u1 && lenb (enc j fs1 u1)
-  | VEmb fs1 u1 => negb (i_pointer (field_info s f)) && sub j fs1 u1 && lenb (enc j fs1 u1)
+  | VEmb fs1 u1 => (negb (i_pointer (field_info s f)) && negb (i_oneof (field_info s f))) && sub j fs1 u1 && lenb (enc j fs1 u1)
+  (* by-value member of a oneof (always-present message type): the wrapper is absent or holds the message *)
+  | VOpt None => negb (i_pointer (field_info s f)) && i_oneof (field_info s f)
+  | VOpt (Some x) =>
+      match x with
+      | VEmb fs1 u1 => (negb (i_pointer (field_info s f)) && i_oneof (field_info s f)) && sub j fs1 u1 && lenb (enc j fs1 u1)
+      | _ => false
+      end
   | _ => false
   end.
 Definition msg_slot_ok (s : schema) (sub : nat -> list val -> bytes -> bool) (enc : nat -> list val -> bytes -> bytes)
@@ -550,7 +559,7 @@ Qed.
 
 (* ---------------------------------------------------------------- message-typed fields *)
 Definition zero_stable (s : schema) : Prop := forall m f j mj, In m s -> In f (mfields m) -> f_custom f = CNone -> fty f = TMsg j ->
-  i_repeated (field_info s f) = false -> i_pointer (field_info s f) = false -> nth_error s j = Some mj ->
+  i_repeated (field_info s f) = false -> i_pointer (field_info s f) = false -> i_oneof (field_info s f) = false -> nth_error s j = Some mj ->
   zero_slot (length s) s f = VEmb (zero_fields s mj) [].
 Definition msg_idx_ok (s : schema) : Prop := forall m f j, In m s -> In f (mfields m) -> fty f = TMsg j -> exists mj, nth_error s j = Some mj.
 
@@ -578,7 +587,7 @@ Proof. intros E. destruct G as [|G']; [lia|]. apply (ref_decode_nil s j mj E). Q
 
 Lemma msg_rt slot f fs : In (slot, f) (number_from 0 (mfields m)) -> In m s ->
   f_custom f = CNone -> fty f = TMsg j -> valid_number (fnum f) = true ->
-  (foneof f <> None -> i_repeated (field_info s f) = false /\ i_pointer (field_info s f) = true) ->
+  (foneof f <> None -> i_repeated (field_info s f) = false) ->
   msg_slot_ok s sub enc f j (nth slot fs (VInt 0)) = true ->
   field_rt s G idx m (ref_slot enc) (norm_slot g s) (zero_slot (length s) s) fs (slot, f).
 Proof.
@@ -598,7 +607,8 @@ Proof.
   unfold msg_slot_ok in Hok.
   destruct (i_repeated (field_info s f)) eqn:Er.
   - (* repeated *)
-    assert (Hno : foneof f = None) by (destruct (foneof f) eqn:E; [destruct (Hone ltac:(congruence)) as [E1 _]; congruence|reflexivity]).
+    assert (Hno : foneof f = None) by (destruct (foneof f) eqn:E; [pose proof (Hone ltac:(congruence)); congruence|reflexivity]).
+    assert (Hio : i_oneof (field_info s f) = false) by (rewrite info_oneof, Hno; reflexivity).
     destruct (nth slot fs (VInt 0)) as [| | |l| | | | |] eqn:Ev; try discriminate Hok.
     assert (Hzl : zero_slot (length s) s f = VList []).
     { destruct (length s); cbn [zero_slot]; rewrite (info_msg s f j Hc Ht), Er; reflexivity. }
@@ -623,7 +633,8 @@ Proof.
       - cbn [flat_map forallb map] in *. apply andb_true_iff in Hal. destruct Hal as [Hx Hal].
         assert (Hstep : bytes_ok (ref_msg_elem enc (fnum f) j x) /\
                         ref_decode (S G) s idx (ref_msg_elem enc (fnum f) j x) (t0, u) = Some (set_nth t0 slot (VList (acc ++ [nel x])), u)).
-        { unfold msg_elem_ok in Hx. destruct x as [| | | |[[fs1 u1]|]|fs1 u1| | |]; try discriminate Hx; cbn [ref_msg_elem].
+        { unfold msg_elem_ok in Hx. rewrite Hio in Hx. rewrite ?andb_false_r in Hx. cbn [andb negb] in Hx. rewrite ?andb_true_r in Hx.
+          destruct x as [| |[[]|]| |[[fs1 u1]|]|fs1 u1| | |]; try discriminate Hx; cbn [ref_msg_elem].
           - apply andb_true_iff in Hx. destruct Hx as [Hx Hl1]. apply andb_true_iff in Hx. destruct Hx as [Hp Hs1].
             destruct (Hsub fs1 u1 Hs1) as [mj' [E' [Hb1 Hd1]]]. rewrite Emj in E'. injection E' as <-.
             apply (Hrec _ t0 _ Hb1 Hl1). rewrite Hk. fold enc. rewrite Hd1, Hn, Hp. reflexivity.
@@ -639,7 +650,25 @@ Proof.
     destruct (Gl l [] t Hok Hz Hsl) as [Hb Hd]. split; [exact Hb|]. rewrite Hd. reflexivity.
   - (* singular *)
     unfold msg_elem_ok in Hok.
-    destruct (nth slot fs (VInt 0)) as [| | | |[[fs1 u1]|]|fs1 u1| | |] eqn:Ev; try discriminate Hok; cbn [ref_msg_slot].
+    destruct (nth slot fs (VInt 0)) as [| |[x|]| |[[fs1 u1]|]|fs1 u1| | |] eqn:Ev; try discriminate Hok; cbn [ref_msg_slot].
+    + (* selected by-value member of a oneof: always written, decoded into a fresh wrapper *)
+      destruct x as [| | | | |fs1 u1| | |]; try discriminate Hok.
+      apply andb_true_iff in Hok. destruct Hok as [Hok Hl1]. apply andb_true_iff in Hok. destruct Hok as [Hp Hs1].
+      apply andb_true_iff in Hp. destruct Hp as [Hp Hio]. apply negb_true_iff in Hp.
+      destruct (Hsub fs1 u1 Hs1) as [mj' [E' [Hb1 Hd1]]]. rewrite Emj in E'. injection E' as <-.
+      assert (Hzp : zero_slot (length s) s f = VOpt None) by (destruct (length s); cbn [zero_slot]; rewrite (info_msg s f j Hc Ht), Er, Hp, Hio; reflexivity).
+      rewrite Hzp in Hz.
+      assert (Hnorm : norm_slot g s f (VOpt (Some (VEmb fs1 u1))) = VOpt (Some (VEmb (norm_fields g s j fs1) u1))) by (unfold norm_slot; rewrite Hc, Ht; reflexivity).
+      rewrite Hnorm. apply (Hrec _ t _ Hb1 Hl1).
+      unfold apply_known. rewrite Hc, Ht, Er, Hp, Hio. cbn [t_pay]. rewrite Hz, Hzo. fold enc. rewrite Hd1. cbn [fst snd].
+      rewrite clear_unset; [reflexivity|]. intros sib Hsb. destruct (siblings_are_fields m f slot sib Hsb) as [q [Hq <-]].
+      apply (Hsib (spec_ld_nonempty _ _) q Hq Hsb).
+    + (* unselected by-value member *)
+      apply andb_true_iff in Hok. destruct Hok as [Hp Hio]. apply negb_true_iff in Hp.
+      assert (Hzp : zero_slot (length s) s f = VOpt None) by (destruct (length s); cbn [zero_slot]; rewrite (info_msg s f j Hc Ht), Er, Hp, Hio; reflexivity).
+      split; [constructor|]. rewrite (ref_decode_nil s idx m Hm).
+      assert (Hnorm : norm_slot g s f (VOpt None) = VOpt None) by (unfold norm_slot; rewrite Hc, Ht; reflexivity).
+      rewrite Hnorm, <- Hzp, <- Hz, set_nth_same. reflexivity.
     + (* pointer to a message *)
       apply andb_true_iff in Hok. destruct Hok as [Hok Hl1]. apply andb_true_iff in Hok. destruct Hok as [Hp Hs1].
       destruct (Hsub fs1 u1 Hs1) as [mj' [E' [Hb1 Hd1]]]. rewrite Emj in E'. injection E' as <-.
@@ -656,10 +685,11 @@ Proof.
       assert (Hnorm : norm_slot g s f (VMsg None) = VMsg None) by (unfold norm_slot; rewrite Hc, Ht; reflexivity).
       rewrite Hnorm, <- Hzp, <- Hz, set_nth_same. reflexivity.
     + (* always-present message *)
-      apply andb_true_iff in Hok. destruct Hok as [Hok Hl1]. apply andb_true_iff in Hok. destruct Hok as [Hp Hs1]. apply negb_true_iff in Hp.
+      apply andb_true_iff in Hok. destruct Hok as [Hok Hl1]. apply andb_true_iff in Hok. destruct Hok as [Hp Hs1].
+      apply andb_true_iff in Hp. destruct Hp as [Hp Hio]. apply negb_true_iff in Hp. apply negb_true_iff in Hio.
       destruct (Hsub fs1 u1 Hs1) as [mj' [E' [Hb1 Hd1]]]. rewrite Emj in E'. injection E' as <-.
-      assert (Hno : foneof f = None) by (destruct (foneof f) eqn:E; [destruct (Hone ltac:(congruence)) as [_ E1]; congruence|reflexivity]).
-      pose proof (Hstable m f j mj Hms Hfin Hc Ht Er Hp Emj) as Hzp. rewrite Hzp in Hz.
+      assert (Hno : foneof f = None) by (rewrite info_oneof in Hio; destruct (foneof f); [discriminate Hio|reflexivity]).
+      pose proof (Hstable m f j mj Hms Hfin Hc Ht Er Hp Hio Emj) as Hzp. rewrite Hzp in Hz.
       assert (Hnorm : norm_slot g s f (VEmb fs1 u1) = VEmb (norm_fields g s j fs1) u1) by (unfold norm_slot; rewrite Hc, Ht; reflexivity).
       rewrite Hnorm. fold enc.
       destruct (enc j fs1 u1) as [|y0 l0] eqn:Ep.
@@ -667,7 +697,7 @@ Proof.
         rewrite (sub_nil mj Emj) in Hd1. injection Hd1 as E1 E2.
         split; [constructor|]. rewrite (ref_decode_nil s idx m Hm). rewrite <- E1, <- E2, <- Hz, set_nth_same. reflexivity.
       * apply (Hrec _ t _ Hb1 Hl1).
-        unfold apply_known. rewrite Hc, Ht, Er, Hp. cbn [t_pay]. rewrite Hz. cbv beta iota.
+        unfold apply_known. rewrite Hc, Ht, Er, Hp, Hio. cbn [t_pay]. rewrite Hz. cbv beta iota.
         match goal with |- match ?x with _ => _ end = _ => replace x with (Some (norm_fields g s j fs1, u1)) by (symmetry; exact Hd1) end.
         rewrite (clear_siblings_none m f slot t Hno). reflexivity.
 Qed.
@@ -998,8 +1028,8 @@ Proof.
       { intros fs1 u1 H1. destruct (rt_ok_idx g j fs1 u1 H1) as [mj Emj]. exists mj. split; [exact Emj|].
         destruct G as [|G']; [lia|]. apply (IH j fs1 u1 mj G' Hgj Emj H1). lia. }
       apply (msg_rt s G idx m Hm Hnd g j Hsub Hstable Hidx ltac:(lia) slot f fs Hin Hms Hc Ht Hv); [|exact Hok].
-      intros Ho. destruct Hs as [[_ [[[k [Hk|[Hk _]]] _]|[[j' [Ht' [[Hl Hp]|[Hl Hno]]]]|[kk [vk [Ht' _]]]]]]|[[E|E] _]]; try congruence.
-      split; [apply info_not_repeated, Hl|apply Hp, Ho].
+      intros Ho. destruct Hs as [[_ [[[k [Hk|[Hk _]]] _]|[[j' [Ht' [Hl|[Hl Hno]]]]|[kk [vk [Ht' _]]]]]]|[[E|E] _]]; try congruence.
+      apply info_not_repeated, Hl.
     + (* map *)
       assert (Hno : foneof f = None).
       { destruct Hs as [[_ [[[k [Hk|[Hk _]]] _]|[[j' [Ht' _]]|[kk' [vk' [Ht' Hno]]]]]]|[[E|E] _]]; try congruence. }
@@ -1044,13 +1074,16 @@ Proof.
     unfold scalar_slot_ok in Hok. rewrite Hr, info_oneof in Hok. destruct (foneof f); [|congruence]. cbn [orb] in Hok.
     destruct v as [| |[x|]| | | | | |]; try discriminate Hok; [discriminate Hns|].
     unfold ref_slot, norm_slot. rewrite Hc, Ht. cbn. repeat split. left; reflexivity.
-  - (* message member: a pointer *)
-    assert (Hrp : i_repeated (field_info s f) = false /\ i_pointer (field_info s f) = true).
-    { destruct Hs as [[_ [[[k [Hk|[Hk _]]] _]|[[j' [Ht' [[Hl Hp]|[Hl Hno]]]]|[kk [vk [Ht' _]]]]]]|[[E|E] _]]; try congruence.
-      split; [apply info_not_repeated, Hl|apply Hp, Ho]. }
-    destruct Hrp as [Hr Hp]. unfold msg_slot_ok in Hok. rewrite Hr in Hok. unfold msg_elem_ok in Hok. rewrite Hp in Hok.
-    destruct v as [| | | |[[fs1 u1]|]|fs1 u1| | |]; try discriminate Hok; [discriminate Hns|].
-    unfold ref_slot, norm_slot. rewrite Hc, Ht. cbn. repeat split. right; reflexivity.
+  - (* message member: a pointer, or held by value in the wrapper *)
+    assert (Hr : i_repeated (field_info s f) = false).
+    { destruct Hs as [[_ [[[k [Hk|[Hk _]]] _]|[[j' [Ht' [Hl|[Hl Hno]]]]|[kk [vk [Ht' _]]]]]]|[[E|E] _]]; try congruence.
+      apply info_not_repeated, Hl. }
+    assert (Hio : i_oneof (field_info s f) = true) by (rewrite info_oneof; destruct (foneof f); [reflexivity|congruence]).
+    unfold msg_slot_ok in Hok. rewrite Hr in Hok. unfold msg_elem_ok in Hok. rewrite Hio in Hok.
+    destruct v as [| |[x|]| |[[fs1 u1]|]|fs1 u1| | |]; try discriminate Hok; try discriminate Hns.
+    + unfold ref_slot, norm_slot. rewrite Hc, Ht. cbn. repeat split. left; reflexivity.
+    + unfold ref_slot, norm_slot. rewrite Hc, Ht. cbn. repeat split. right; reflexivity.
+    + exfalso. cbn [negb] in Hok. rewrite andb_false_r in Hok. discriminate Hok.
   - (* maps are never oneof members *)
     exfalso. destruct Hs as [[_ [[[k [Hk|[Hk _]]] _]|[[j' [Ht' _]]|[kk' [vk' [Ht' Hno]]]]]]|[[E|E] _]]; congruence.
   - (* Timestamp member *)
@@ -1070,14 +1103,16 @@ Qed.
 Lemma oneof_member_zero n f : supported s f -> foneof f <> None -> unset (zero_slot n s f).
 Proof.
   intros Hs Ho. pose proof (info_oneof s f) as Hone. destruct (foneof f) as [o|] eqn:Eo; [|congruence].
-  destruct Hs as [[Hc [[[k Hk] [Hl|Hno]]|[[j [Ht [[Hl Hp]|[Hl Hno]]]]|[kk [vk [Ht Hno]]]]]]|[Hc Hor]]; try congruence.
+  destruct Hs as [[Hc [[[k Hk] [Hl|Hno]]|[[j [Ht [Hl|[Hl Hno]]]]|[kk [vk [Ht Hno]]]]]]|[Hc Hor]]; try congruence.
   - pose proof (info_not_repeated s f Hl) as Hr.
     assert (Hpt : i_pointer (field_info s f) = false).
     { apply info_oneof_nonmsg_ptr; [rewrite Eo; discriminate|]. intros idx. destruct Hk as [Hk|[Hk _]]; rewrite Hk; discriminate. }
     rewrite (zero_slot_scalar n s f k Hc); [rewrite Hr, Hone; left; reflexivity|].
     destruct Hk as [Hk|[Hk Ek]]; [left; exact Hk|right; auto].
-  - pose proof (info_not_repeated s f Hl) as Hr. specialize (Hp ltac:(congruence)).
-    destruct n; cbn [zero_slot]; rewrite (info_msg s f j Hc Ht), Hr, Hp; right; reflexivity.
+  - pose proof (info_not_repeated s f Hl) as Hr.
+    destruct (i_pointer (field_info s f)) eqn:Hp.
+    + destruct n; cbn [zero_slot]; rewrite (info_msg s f j Hc Ht), Hr, Hp; right; reflexivity.
+    + destruct n; cbn [zero_slot]; rewrite (info_msg s f j Hc Ht), Hr, Hp, Hone; left; reflexivity.
   - specialize (Hor ltac:(congruence)).
     destruct n; cbn [zero_slot]; rewrite (info_cast s f Hc), Hor, Hone;
       destruct Hc as [-> | ->]; left; reflexivity.
@@ -1206,7 +1241,7 @@ Definition zero_stable_b (s : schema) : bool :=
   forallb (fun m => forallb (fun f =>
      match f_custom f, fty f with
      | CNone, TMsg j =>
-         if negb (i_repeated (field_info s f)) && negb (i_pointer (field_info s f)) then
+         if negb (i_repeated (field_info s f)) && negb (i_pointer (field_info s f)) && negb (i_oneof (field_info s f)) then
            match nth_error s j with
            | Some mj => val_eqb (S (S (length s))) (zero_slot (length s) s f) (VEmb (zero_fields s mj) [])
            | None => true
@@ -1216,8 +1251,8 @@ Definition zero_stable_b (s : schema) : bool :=
      end) (mfields m)) s.
 Lemma zero_stable_b_spec s : zero_stable_b s = true -> zero_stable s.
 Proof.
-  unfold zero_stable_b, zero_stable. intros H m f j mj Hm Hf Hc Ht Hr Hp Ej. rewrite forallb_forall in H. specialize (H m Hm).
-  rewrite forallb_forall in H. specialize (H f Hf). rewrite Hc, Ht, Hr, Hp, Ej in H. cbn [negb andb] in H. apply (val_eqb_sound _ _ _ H).
+  unfold zero_stable_b, zero_stable. intros H m f j mj Hm Hf Hc Ht Hr Hp Hio Ej. rewrite forallb_forall in H. specialize (H m Hm).
+  rewrite forallb_forall in H. specialize (H f Hf). rewrite Hc, Ht, Hr, Hp, Hio, Ej in H. cbn [negb andb] in H. apply (val_eqb_sound _ _ _ H).
 Qed.
 
 Definition msg_idx_ok_b (s : schema) : bool :=
